@@ -486,6 +486,7 @@ func (g *hGen) mutate() {
 		2,  // 12 insert that must fail
 		4,  // 13 re-port a whole workload (same names, labels and owner; other container ports)
 		3,  // 14 recycle a single-pod workload: ask, delete, re-create with the next port epoch, ask again
+		1,  // 15 recycle a whole workload under cache pressure (see below)
 	}
 	delOp := func() string { return pick(r, []string{"delete", "delete", "deleteCopy"}) }
 	if g.weights == nil {
@@ -698,6 +699,90 @@ func (g *hGen) mutate() {
 		np.Spec.Containers[0].Ports = ownerPorts(ok, p.Labels, g.epoch[ok])
 		g.pods[k] = np
 		g.add("insert", g.obj("Pod", np))
+	case 15:
+		// a whole workload is replaced pod by pod while the cache is under pressure: right after a policy change
+		// (which empties the cache) one question inside the workload and one from outside are asked, then a
+		// dozen questions that do not involve it (with a small cache the oldest verdicts are evicted), then every
+		// pod of the workload is deleted and comes back with the next ports, and the two questions are asked again
+		groups := map[string][]string{}
+		for _, k := range sortedKeys(g.pods) {
+			p := g.pods[k]
+			if len(p.OwnerReferences) > 0 {
+				gk := p.Namespace + "/" + ctlOwner(p) + "/" + fmt.Sprint(p.Labels)
+				groups[gk] = append(groups[gk], k)
+			}
+		}
+		var big []string
+		for _, gk := range sortedKeys(groups) {
+			if len(groups[gk]) >= 2 {
+				big = append(big, gk)
+			}
+		}
+		if len(big) == 0 {
+			return
+		}
+		gk := pick(r, big)
+		members := groups[gk]
+		var outside []string
+		for _, ok := range sortedKeys(groups) {
+			if ok != gk {
+				outside = append(outside, groups[ok][0])
+			}
+		}
+		if len(outside) == 0 {
+			return
+		}
+		first := g.pods[members[0]]
+		port := "80"
+		for _, cp := range first.Spec.Containers[0].Ports {
+			if cp.Name == "http" {
+				port = fmt.Sprint(cp.ContainerPort)
+			}
+		}
+		v := intstr.FromString("http")
+		tcp := corev1.ProtocolTCP
+		np := &netv1.NetworkPolicy{TypeMeta: metav1.TypeMeta{APIVersion: "networking.k8s.io/v1", Kind: "NetworkPolicy"},
+			ObjectMeta: metav1.ObjectMeta{Name: fmt.Sprintf("np-press%d", len(g.steps)), Namespace: first.Namespace},
+			Spec: netv1.NetworkPolicySpec{PolicyTypes: []netv1.PolicyType{netv1.PolicyTypeIngress},
+				Ingress: []netv1.NetworkPolicyIngressRule{{Ports: []netv1.NetworkPolicyPort{{Protocol: &tcp, Port: &v}}}}}}
+		g.nps[first.Namespace+"/"+np.Name] = np
+		g.add("insert", g.obj("NetworkPolicy", np))
+		ask := func(q job.Step) {
+			g.asked = append(g.asked, q)
+			g.steps = append(g.steps, q)
+		}
+		inside := job.Step{Kind: job.Query, Src: members[0], Dst: members[1], Proto: "TCP", Port: port}
+		fromOut := job.Step{Kind: job.Query, Src: pick(r, outside), Dst: members[0], Proto: "TCP", Port: port}
+		ask(inside)
+		ask(fromOut)
+		n, want := 0, r.between(8, 11) // around the size of the small cache: which of the two verdicts goes first is the point
+		for _, a := range outside {
+			for _, b := range outside {
+				for _, pr := range hProtos {
+					for _, po := range hPorts {
+						if n < want && (a != b || len(outside) == 1) {
+							ask(job.Step{Kind: job.Query, Src: a, Dst: b, Proto: pr, Port: po})
+							n++
+						}
+					}
+				}
+			}
+		}
+		if r.chance(1, 2) {
+			ask(fromOut) // asked again: now the most recently used
+		}
+		ok := first.Namespace + "/" + ctlOwner(first)
+		for _, k := range members {
+			g.add(delOp(), g.obj("Pod", g.pods[k]))
+		}
+		g.epoch[ok]++
+		for _, k := range members {
+			p2 := g.pods[k].DeepCopy()
+			p2.Spec.Containers[0].Ports = ownerPorts(ok, p2.Labels, g.epoch[ok])
+			g.pods[k] = p2
+			g.add("insert", g.obj("Pod", p2))
+		}
+		g.steps = append(g.steps, fromOut, inside)
 	default:
 		switch r.intn(3) {
 		case 0: // BANP with a name other than default
@@ -728,7 +813,7 @@ func genHistory(r *rng, n int) *history {
 	g.tcpOnly = r.chance(1, 3)
 	g.named = r.between(0, 3)
 	g.broad = r.chance(1, 2)
-	base := []int{10, 5, 6, 2, 8, 5, 7, 5, 4, 3, 2, 1, 2, 4, 3}
+	base := []int{10, 5, 6, 2, 8, 5, 7, 5, 4, 3, 2, 1, 2, 4, 3, 1}
 	for _, b := range base {
 		g.weights = append(g.weights, b*pick(r, []int{0, 1, 1, 3}))
 	}
@@ -748,29 +833,29 @@ func genHistory(r *rng, n int) *history {
 		// cache (pod inserts, updates, deletes), and bursts of distinct questions in between
 		g.nsN, g.podN, g.owned, g.broad = r.between(1, 2), 5, true, true
 		g.qBurst, g.forceSmallCache = r.between(6, 14), true
-		g.weights = []int{10, 4, 0, 0, 1, 0, 0, 0, 0, 0, 1, 0, 0, 3, 3}
+		g.weights = []int{10, 4, 0, 0, 1, 0, 0, 0, 0, 0, 1, 0, 0, 3, 3, 6}
 	case prof < 2:
 		// admin profile: few pods, broad selectors, and a churn of admin policies whose actions collide
 		g.nsN, g.podN, g.broad, g.owned = r.between(1, 2), 3, true, true
 		g.anpN, g.adminPre = 8, r.between(3, 6)
-		g.weights = []int{3, 1, 1, 0, 1, 1, 8, 9, 2, 2, 0, 0, 0, 0, 0}
+		g.weights = []int{3, 1, 1, 0, 1, 1, 8, 9, 2, 2, 0, 0, 0, 0, 0, 0}
 	case prof < 4:
 		// delete-and-recreate profile: workloads disappear completely and come back
 		g.nsN, g.podN, g.tcpOnly, g.named, g.broad, g.owned = 1, 2, true, 3, true, true
 		g.qports = []string{"80", "8080", "443"}
-		g.weights = []int{6, 3, 1, 0, 6, 2, 0, 0, 0, 0, 0, 0, 0, 2, 10}
+		g.weights = []int{6, 3, 1, 0, 6, 2, 0, 0, 0, 0, 0, 0, 0, 2, 10, 1}
 	case prof < 6:
 		// relabel profile: namespaces and pods keep losing and gaining labels under policies whose selectors
 		// are matchExpressions, so that a removed key flips DoesNotExist / NotIn / Exists
 		g.nsN, g.podN, g.owned, g.exprs = 2, 3, true, true
-		g.weights = []int{6, 1, 12, 0, 5, 2, 4, 2, 1, 1, 1, 0, 0, 0, 0}
+		g.weights = []int{6, 1, 12, 0, 5, 2, 4, 2, 1, 1, 1, 0, 0, 0, 0, 0}
 	}
 	if r.chance(1, 5) {
 		// rollout profile: one namespace, few controlled pods, policies with named ports that really
 		// select them, and whole-workload re-ports as the dominant mutation
 		g.nsN, g.podN, g.tcpOnly, g.named, g.broad, g.owned = 1, 3, true, 3, true, true
 		g.qports = []string{"80", "8080", "443"}
-		g.weights = []int{6, 1, 1, 0, 8, 2, 0, 0, 0, 0, 1, 0, 0, 10, 2}
+		g.weights = []int{6, 1, 1, 0, 8, 2, 0, 0, 0, 0, 1, 0, 0, 10, 2, 1}
 	}
 	pr := r.perm(1001)
 	for i := 0; i < 8; i++ {
